@@ -307,12 +307,20 @@ def run(ck, F):
     # element — the messages, port types and bindings of the WSDL — resolves its prefixes with the bindings of the `definitions`
     for (site, k, v, ctx) in ins:
         absent = False
+        flat = []
         for c in ctx:
             if c[0] != "alt":
                 continue
-            cond, br = c[1], c[2]
-            while isinstance(cond, tuple) and cond and cond[0] == "not":
-                cond, br = cond[1], not br
+            stack = [(CE.expand(c[1]), c[2])]
+            while stack:
+                cond, br = stack.pop()
+                while isinstance(cond, tuple) and cond and cond[0] == "not":
+                    cond, br = cond[1], not br
+                if isinstance(cond, tuple) and cond and cond[0] == "binop" and ((cond[1] == "Or" and br is False) or (cond[1] == "And" and br is True)):
+                    stack += [(cond[2], br), (cond[3], br)]       # `!(a || b)`: neither; `a && b`: both
+                else:
+                    flat.append((cond, br))
+        for cond, br in flat:
             text = og.nf_str(cond)
             if "namespace_lookup" not in text:
                 continue
